@@ -1291,8 +1291,20 @@ fn main() {
             } else if v["part"] == "history" {
                 history_part(&mut rep, seed, idx, 1);
             } else {
-                let mut drv = Model::spawn();
-                api_case(&mut rep, &mut drv, seed, idx);
+                // crash-isolated like the run itself: a dying process is the violation `test runner crash`
+                let (s, i) = (seed.to_string(), idx.to_string());
+                let (ended, out) = rotov_harness::worker::run_worker_keep_stdout(&["api", &s, &i, "1"], Duration::from_secs(900));
+                if let Some(v) = Report::parse_stdout(&out) {
+                    rep.merge_json(&v);
+                }
+                if !matches!(ended, Ended::Exit(0, _)) {
+                    let case = api_case_for(seed, idx);
+                    rep.violation(
+                        "process died (trap/abort/hang) while compiling or running the tests of a generated script",
+                        "test runner crash",
+                        json!({"part": "api", "seed": seed, "index": idx, "case": case_json(&case, false), "ended": format!("{ended:?}")}),
+                    );
+                }
             }
         }
         _ => {
